@@ -132,8 +132,19 @@ class HeapLV(LV):
         self.typ = typ
 
     def keys(self, ex):
-        base = ex.heap_key(self.owner, self.name)
-        return [(base + "#%d" % i, s) for i, (_, s) in enumerate(leaves(self.typ))]
+        out = []
+        self._keys(ex.heap_key(self.owner, self.name), self.typ, out, 0)
+        return out
+
+    def _keys(self, base, typ, out, depth):
+        # nested struct fields get one key per innermost non-struct field, so that an interior pointer
+        # (root type + field path) and the enclosing object address the same cells
+        if typ.under().k == "struct" and depth < 8:
+            for name, ft, _ in typ.fields():
+                self._keys(base + "." + name, ft, out, depth + 1)
+            return
+        for i, (_, s) in enumerate(leaves(typ)):
+            out.append((base + "#%d" % i, s))
 
     def get(self, ex, st):
         terms = []
